@@ -134,3 +134,29 @@ func specSLIWord(e SLIEntry) uint32 {
 func specSLIDecode(w uint32) SLIEntry {
 	return SLIEntry{First: uint16(w >> 19 & 0x1FFF), Number: uint16(w >> 6 & 0x1FFF), Picture: uint8(w & 0x3F)}
 }
+
+// ---- RFC 3550 section 6.5: SDES ----
+
+// specItemsLen: octets occupied by the first n items of a chunk (type + length + text each).
+func specItemsLen(items []SourceDescriptionItem, n int) int {
+	if n <= 0 {
+		return 0
+	}
+	return specItemsLen(items, n-1) + 2 + len(items[n-1].Text)
+}
+
+// specChunkLen: SSRC + items + at least one null octet, padded to a 32-bit boundary.
+func specChunkLen(c SourceDescriptionChunk) int {
+	l := 4 + specItemsLen(c.Items, len(c.Items)) + 1
+	return l + specPad4(l)
+}
+
+// specChunksLen: octets occupied by the first n chunks.
+func specChunksLen(cs []SourceDescriptionChunk, n int) int {
+	if n <= 0 {
+		return 0
+	}
+	return specChunksLen(cs, n-1) + specChunkLen(cs[n-1])
+}
+
+func specItemOK(it SourceDescriptionItem) bool { return it.Type != SDESEnd && len(it.Text) <= 255 }
